@@ -14,7 +14,7 @@ import sys
 from .. import lang as L
 from .. import refdiff as D
 from ..common import h64
-from ..ref import canon
+from ..ref import canon, left_sccs
 from ..tsu import StepHeart, gen_parser
 
 ID = 'C03'
@@ -287,6 +287,7 @@ def check_grammar(acc, spec, g, rng, tier, origin):
         return
     # analysis flags read from the public Rule attributes (evidence)
     lrec_marked = set()
+    sccs = left_sccs(g)
     try:
         for r in case.model.rules:
             if getattr(r, 'is_lrec', False):
@@ -296,9 +297,15 @@ def check_grammar(acc, spec, g, rng, tier, origin):
         acc.note('Rule.is_lrec unobserved')
     texts = inputs_for(rng, spec, tier)
     gen = None
+    runaway = 0
     for idx, text in enumerate(texts):
+        if runaway >= 2:
+            acc.count('inputs_skipped_after_runaway')
+            continue
         tag, a, b, r = D.compare(case, text)
         acc.evaluations += 1
+        if tag in ('exc:StepBudget', 'exc:RecursionError'):
+            runaway += 1
         if tag == 'ref-budget':
             acc.count('ref_budget')
             continue
@@ -310,7 +317,9 @@ def check_grammar(acc, spec, g, rng, tier, origin):
                 acc.count('lr_grown')
                 acc.nontriv(L.grammar_text(g), text)
         if tag is not None:
-            nonleader = sorted(h for h in r.lr_heads if h not in lrec_marked)
+            # the recorded finding: the growth head is a rule of a cycle that TatSu does not mark, the marked one being
+            # the smallest name of the cycle; a head that IS the smallest name and still unmarked is something else
+            nonleader = sorted(h for h in r.lr_heads if h not in lrec_marked and h != min(sccs.get(h, {h})))
             if nonleader and tag in ('accept', 'len', 'ast', 'reject'):
                 acc.violation(f'{tag}/trigger:lr-entered-through-non-leader',
                               f'indirect left recursion entered through a rule that is not the marked leader ({nonleader}): '
